@@ -49,13 +49,44 @@ def _local_defs(loop):
     return {k: v for k, v in defs.items() if seen[k] == 1}
 
 
+def order_of(fn):
+    """node id -> position in a depth-first, source-order traversal of fn (structural order: independent of line numbers, which synthesised nodes share)"""
+    if not hasattr(fn, "_dfs_order"):
+        order = {}
+
+        def rec(n):
+            order[id(n)] = len(order)
+            for c in ast.iter_child_nodes(n):
+                rec(c)
+        rec(fn)
+        fn._dfs_order = order
+    return fn._dfs_order
+
+
+def precedes(fn, a, b):
+    o = order_of(fn)
+    return o.get(id(a), -1) < o.get(id(b), -1)
+
+
 def _inf_inits(fn):
-    """names / self attributes assigned +inf somewhere in fn (outside loops that scan them) -> {text: node}"""
+    """names / self attributes assigned +inf somewhere in fn (outside loops that scan them) -> {text: node}.  A name initialised to a tuple with +inf at
+    position k (directly or through a local naming that tuple) gives the running best `name[k]`."""
     out = {}
+    tuples = {}
     for n in ast.walk(fn):
         if isinstance(n, ast.Assign) and is_inf_literal(n.value):
             for t in n.targets:
                 out[unparse(t)] = n
+        if isinstance(n, ast.Assign) and isinstance(n.value, ast.Tuple) and len(n.targets) == 1 and isinstance(n.targets[0], ast.Name):
+            ks = [i for i, e in enumerate(n.value.elts) if is_inf_literal(e)]
+            if ks:
+                tuples[n.targets[0].id] = ks
+                for k in ks:
+                    out["%s[%d]" % (n.targets[0].id, k)] = n
+    for n in ast.walk(fn):
+        if isinstance(n, ast.Assign) and isinstance(n.value, ast.Name) and n.value.id in tuples and len(n.targets) == 1 and isinstance(n.targets[0], ast.Name):
+            for k in tuples[n.value.id]:
+                out.setdefault("%s[%d]" % (n.targets[0].id, k), n)
     return out
 
 
@@ -86,6 +117,13 @@ def find_scans(fn):
             if p is not loop:
                 continue
             assigned = [unparse(t) for s in arm.body if isinstance(s, ast.Assign) for t in s.targets]
+            # a tuple-valued running best `B` compared through its component `B[k]`: assigning B re-assigns B[k]
+            comp = {}
+            for t_ in list(assigned):
+                for b_ in infs:
+                    if b_.startswith(t_ + "[") and b_.endswith("]"):
+                        assigned.append(b_)
+                        comp[b_] = (t_, b_[len(t_):])
             f = guards.norm(arm.test, unparse)
             hit = None
             not_updated = False
@@ -99,7 +137,7 @@ def find_scans(fn):
                 for a in guards.atoms(f):
                     if a[0] == "lt":
                         for b in infs:
-                            if b in (a[1], a[2]) and infs[b].lineno < loop.lineno and any(isinstance(s, ast.Assign) for s in arm.body):
+                            if b in (a[1], a[2]) and precedes(fn, infs[b], loop) and any(isinstance(s, ast.Assign) for s in arm.body):
                                 hit = (a, b)
                                 not_updated = True
             if hit is None:
@@ -126,6 +164,8 @@ def find_scans(fn):
             for s in arm.body:
                 if isinstance(s, ast.Assign) and b in [unparse(t) for t in s.targets]:
                     sc.stored = unparse(s.value)
+                elif isinstance(s, ast.Assign) and b in comp and comp[b][0] in [unparse(t) for t in s.targets]:
+                    sc.stored = unparse(s.value) + comp[b][1]
             # tie arms: any other If in the loop whose test has eq(key, best)
             for other in [n for n in ast.walk(loop) if isinstance(n, ast.If) and n is not arm]:
                 g = guards.norm(other.test, unparse)
@@ -166,7 +206,7 @@ def judge(sc):
     elif stored != key_c and getattr(sc, "stored", None) != sc.key:
         out.append(("stored-not-compared", "`%s` is compared with the key `%s` but `%s` is stored" % (sc.best, sc.key, getattr(sc, "stored", "?")), sc.arm))
     # initialisation precedes the loop
-    if not (sc.init.lineno < sc.loop.lineno):
+    if not precedes(sc.fn, sc.init, sc.loop):
         out.append(("best-not-initialised", "`%s` must start at +inf before the scan" % sc.best, sc.loop))
     for t in getattr(sc, "accum", []):
         if t not in sc.ties and not any(t is x for st_ in sc.arm.body for x in ast.walk(st_)):
@@ -193,3 +233,82 @@ def arm_condition(sc, arm):
         guards.assume(guards.norm(test, unparse), pol, facts)
     guards.assume(guards.norm(arm.test, unparse), True, facts)
     return facts
+
+
+# ---- two-pass formulation: minimum first, then the elements that attain it ---------------------------------------------------------
+class MinFilter:
+    """best = min(KEY(v) for v in COLL)  (a fold or a min() call over the whole collection);  cands = [v for v in COLL if KEY(v) == best]"""
+    def __init__(self, fn, coll, var, key, best, cands, node, how):
+        self.fn, self.coll, self.var, self.key, self.best, self.cands, self.node, self.how = fn, coll, var, key, best, cands, node, how
+
+
+def _rename(text, old, new):
+    import re
+    return re.sub(r"(?<![\w.])%s(?![\w])" % re.escape(old), new, text)
+
+
+def _single_assigns(fn):
+    cnt, val = {}, {}
+    for x in ast.walk(fn):
+        if isinstance(x, ast.Name) and isinstance(x.ctx, (ast.Store, ast.Del)):
+            cnt[x.id] = cnt.get(x.id, 0) + 1
+        if isinstance(x, ast.Assign) and len(x.targets) == 1 and isinstance(x.targets[0], ast.Name):
+            val[x.targets[0].id] = x
+    return {k: v for k, v in val.items() if cnt.get(k) == 1}
+
+
+def _filter_lists(fn, coll, var, key, best, keys_name=None):
+    """names of lists built as [v for v in COLL if KEY(v) == best] (or through zip(COLL, KEYS) with the key list computed over the same collection)"""
+    out = []
+    for name, st in _single_assigns(fn).items():
+        c = st.value
+        if not (isinstance(c, ast.ListComp) and len(c.generators) == 1 and len(c.generators[0].ifs) == 1):
+            continue
+        g = c.generators[0]
+        cond = guards.norm(g.ifs[0], unparse)
+        if isinstance(g.target, ast.Name) and unparse(g.iter) == coll and unparse(c.elt) == g.target.id:
+            want = tuple(sorted((_rename(key, var, g.target.id), best)))
+            if cond == ("eq",) + want:
+                out.append((name, st))
+        elif (isinstance(g.target, ast.Tuple) and len(g.target.elts) == 2 and all(isinstance(t, ast.Name) for t in g.target.elts) and isinstance(g.iter, ast.Call)
+              and isinstance(g.iter.func, ast.Name) and g.iter.func.id == "zip" and len(g.iter.args) == 2 and keys_name is not None
+              and unparse(g.iter.args[0]) == coll and unparse(g.iter.args[1]) == keys_name and unparse(c.elt) == g.target.elts[0].id):
+            want = tuple(sorted((g.target.elts[1].id, best)))
+            if cond == ("eq",) + want:
+                out.append((name, st))
+    return out
+
+
+def find_minfilters(fn):
+    out = []
+    sa = _single_assigns(fn)
+    # (a) best = min(<keys over the whole collection>[, default=+inf])
+    for bname, st in sa.items():
+        v = st.value
+        if not (isinstance(v, ast.Call) and isinstance(v.func, ast.Name) and v.func.id == "min" and len(v.args) == 1):
+            continue
+        if any(k.arg != "default" or not is_inf_literal(k.value) for k in v.keywords):
+            continue
+        src, keys_name = v.args[0], None
+        if isinstance(src, ast.Name) and src.id in sa and isinstance(sa[src.id].value, (ast.ListComp, ast.GeneratorExp)):
+            keys_name, src = src.id, sa[src.id].value
+        if not (isinstance(src, (ast.ListComp, ast.GeneratorExp)) and len(src.generators) == 1 and not src.generators[0].ifs and isinstance(src.generators[0].target, ast.Name)):
+            continue
+        g = src.generators[0]
+        coll, var, key = unparse(g.iter), g.target.id, unparse(src.elt)
+        for cname, cst in _filter_lists(fn, coll, var, key, bname, keys_name):
+            if precedes(fn, st, cst):
+                out.append(MinFilter(fn, coll, var, key, bname, cname, cst, "min-call"))
+    # (b) a fold that only keeps the minimum, followed by the filter
+    for sc in find_scans(fn):
+        only_best = all(isinstance(s, ast.Assign) and [unparse(t) for t in s.targets] == [sc.best] for s in sc.arm.body if not isinstance(s, ast.Pass))
+        if not only_best or sc.flipped or getattr(sc, "not_updated", False) or sc.ties:
+            continue
+        var = unparse(sc.loop.target)
+        key = _subst(sc.key, sc.defs)
+        for cname, cst in _filter_lists(fn, sc.coll, var, key, sc.best):
+            if precedes(fn, sc.loop, cst):
+                mf = MinFilter(fn, sc.coll, var, key, sc.best, cname, cst, "fold")
+                mf.scan = sc
+                out.append(mf)
+    return out
